@@ -42,6 +42,28 @@ Fixpoint mock_assign (fuel : nat) (g : graph) (n : nat) : option nat :=
                 (edges_of g n) (Some 0)
   end.
 
+(* ---- the mock emitter's walk after the repair (fix: "mock generator stops at message types
+   already being filled"): [path] = the messages currently being filled; a followed edge whose
+   target is on the path is left unset ------------------------------------------------------ *)
+Fixpoint mock_path (fuel : nat) (g : graph) (path : list nat) (n : nat) : option nat :=
+  match fuel with
+  | O => None
+  | S f =>
+      let path' := n :: path in
+      fold_left (fun (acc : option nat) (e : nat * bool) =>
+                   match acc with
+                   | None => None
+                   | Some k =>
+                       if snd e then
+                         (if mem_nat (fst e) path' then Some (k + 1)
+                          else match mock_path f g path' (fst e) with
+                               | Some j => Some (k + j + 1)
+                               | None => None end)
+                       else Some (k + 1)
+                   end)
+                (edges_of g n) (Some 0)
+  end.
+
 Definition wf_graph (g : graph) : Prop :=
   forall n t b, In (t, b) (edges_of g n) -> t < List.length g.
 
@@ -50,9 +72,9 @@ From Sebuf Require Import Json.
 Definition predict_C16 (c : graph * list nat) : json :=
   let '(g, roots) := c in
   let fuel := S (S (List.length g)) in
-  JObj [(s "tags", jstrs (if existsb (fun r => match mock_assign (4 * fuel) g r with None => true | Some _ => false end) roots
+  JObj [(s "tags", jstrs (if existsb (fun r => match mock_path fuel g [] r with None => true | Some _ => false end) roots
                           then [s "mock-recursive-message"] else []));
         (s "guarded_walk_terminates",
            JBool (forallb (fun r => match collect fuel g [] r with Some _ => true | None => false end) roots));
         (s "mock_walk_terminates",
-           JBool (forallb (fun r => match mock_assign (4 * fuel) g r with Some _ => true | None => false end) roots))].
+           JBool (forallb (fun r => match mock_path fuel g [] r with Some _ => true | None => false end) roots))].
